@@ -12,6 +12,7 @@
 //   adT <ch> <mean|gauss> <w> <h> <k> | src    the local-threshold surface: the same convolution call threshold_adaptive makes
 //        (convolve_1d with the 1/k float kernel resp. convolve_2d with generate_gaussian_kernel(k, 1.0)) -> "w h : T plane"
 //   ad <ch> <mean|gauss> <reg|inv> <w> <h> <k> <constant> <maxv> | src | T      threshold_adaptive(src, dst, maxv, k, method, dir, constant)
+//        maxv < 0: the overload without max_value (channel maximum, int constant)
 //        (T is only read by the model / judge: the claimed surface; the real function computes its own) -> "w h : dst plane"
 #define BOOST_ENABLE_ASSERT_HANDLER
 #include <string>
@@ -155,9 +156,10 @@ std::string ad(Op const& op) {
     ll cst = hv::to_ll(hd[7]), mx = hv::to_ll(hd[8]);
     Img src(w, h); load(gil::view(src), op.groups, 0);
     Img dst(w, h); fillv(gil::view(dst), 77);
-    gil::threshold_adaptive(gil::const_view(src), gil::view(dst), C(mx), k,
-        gauss ? gil::threshold_adaptive_method::gaussian : gil::threshold_adaptive_method::mean,
-        inv ? gil::threshold_direction::inverse : gil::threshold_direction::regular, C(cst));
+    auto meth = gauss ? gil::threshold_adaptive_method::gaussian : gil::threshold_adaptive_method::mean;
+    auto dir = inv ? gil::threshold_direction::inverse : gil::threshold_direction::regular;
+    if (mx < 0) gil::threshold_adaptive(gil::const_view(src), gil::view(dst), k, meth, dir, (int)cst);   // overload: max = channel max, int constant
+    else gil::threshold_adaptive(gil::const_view(src), gil::view(dst), C(mx), k, meth, dir, C(cst));
     return dims(gil::view(dst)) + planes_of(gil::view(dst), " |");
 }
 
